@@ -467,6 +467,24 @@ Theorem C11_kernels :
 Proof. exact ct_table_checked. Qed.
 Print Assumptions C11_kernels.
 
+(* Key life cycles (ISAP init / save_key / load_key / free, *_aead_init / _reinit with every combination of given, NULL and
+   own-field pointers, prf / prf_fixed / hmac(a) / kmac(a) / kdf(a) *_reinit): the 76 (function, configuration) requirements of
+   Obl/CtObl.ct_required_lifecycle - 385 control tuples, key / saved key image / nonce contents symbolic, lengths and pointer
+   nullness concrete - are part of ct_required above and every one is met by the regenerated table with EXACTLY its tuple list. *)
+Theorem C11_key_lifecycle_kernels :
+  forallb (req_met ct_entries) ct_required_lifecycle = true /\
+  List.length ct_required_lifecycle = 76%nat /\ ct_lifecycle_tuples = 385%nat /\
+  incl ct_required_lifecycle ct_required /\
+  req_has "ascon80pq_isap_aead_load_key" "c32" [] ct_required_lifecycle = true /\
+  req_has "ascon128a_isap_aead_save_key" "directxor" [] ct_required_lifecycle = true /\
+  req_has "ascon80pq_aead_reinit" "default" [2; 0]%N ct_required_lifecycle = true /\
+  req_has "ascon_prf_fixed_reinit" "c32" [536870912]%N ct_required_lifecycle = true /\
+  req_has "ascon_hmaca_reinit" "default" [65]%N ct_required_lifecycle = true /\
+  req_has "ascon_kmac_reinit" "directxor" [33; 5; 32]%N ct_required_lifecycle = true /\
+  req_has "ascon_kdfa_reinit" "default" [0; 0; 41]%N ct_required_lifecycle = true.
+Proof. exact ct_lifecycle_checked. Qed.
+Print Assumptions C11_key_lifecycle_kernels.
+
 (* Layers 1 and 2 meet: for every mode-level function with a trace function in Model/Leak.v and every shape in
    the table, the first rounds of the permutation calls the executor saw in the C, in order, are the EPerm events
    of the model's predicted trace for the same public lengths (Obl/CtTie.predict maps function names and
